@@ -537,7 +537,7 @@ class ResourceQuerySegment(object):
             rqs = ""
         else:
             rqs = self.header.encode()
-        if len(rqs):
+        if len(rqs) and len(query):
             rqs += "/"
         if len(query):
             return f"{rqs}{query}"
